@@ -57,7 +57,11 @@ pub fn plausible(ev: &Ev, effect_then_fail: bool) -> Vec<Action> {
             v.push(Action::Short);
             v
         }
-        Kind::Fsync => f(&[EIO, ENOSPC]),
+        Kind::Fsync => {
+            let mut v = f(&[EIO, ENOSPC]);
+            v.push(Action::LoseTail(EIO));
+            v
+        }
         Kind::Rename | Kind::Link => {
             let mut v = f(&[EIO, ENOSPC, EACCES, EXDEV, ESTALE, EMLINK]);
             if effect_then_fail {
@@ -156,7 +160,7 @@ pub fn fault_run(scn: &Scn, faults: &[(u64, Action)], planned: &[Ev], rep: &mut 
     // then legitimately behave as on a miss, so only validity is checked for those cases.
     let key_name = format!("/{}", scn::the_key().name);
     let blinded = injected.iter().any(|e| {
-        matches!(e.kind, Kind::Open | Kind::Stat)
+        matches!(e.kind, Kind::Open | Kind::Stat | Kind::Utimens)
             && e.path.as_ref().map(|p| p.ends_with(&key_name)).unwrap_or(false)
     }) && faults.iter().any(|(_, a)| matches!(a, Action::Fail(libc::ENOENT) | Action::Fail(libc::ESTALE)));
     if blinded {
